@@ -410,6 +410,13 @@ let check_call (f : string) (a : sx list) : string option =
       let i = (match r with A "panic" -> None | _ -> Some (nlist_sx r)) in
       cmp (=) (function None -> "panic" | Some l -> String.concat "," (List.map show_n l)) m i
   | "glist", "get", [g; ix; r] -> cmp (=) (function None -> "none" | Some i -> show_ident show_n i) (gl_get (glist_sx g) (nat_of_int (int_sx ix))) (opt_sx (ident_sx n_sx) r)
+  | "glist", "is_empty", [g; r] -> cmpb (gl_is_empty (glist_sx g)) (bool_sx r)
+  | "glist", ("first" | "last"), [g; r] ->
+      cmp (=) (function None -> "none" | Some i -> show_ident show_n i) ((if fn = "first" then gl_first else gl_last) (glist_sx g)) (opt_sx (ident_sx n_sx) r)
+  | "glist", "iter", [g; r] -> cmp (=) show_glist (glist_sx g) (glist_sx r)
+  | "glist", "read_into", [g; r] ->
+      cmp (=) (function None -> "panic" | Some l -> String.concat "," (List.map show_n l)) (gl_read (glist_sx g)) (match r with A "panic" -> None | _ -> Some (nlist_sx r))
+  | "ident", "value", [x; r] -> cmp (=) (function None -> "none" | Some m -> show_n m) (idvalue (ident_sx n_sx x)) (opt_sx n_sx r)
   | "glist", "len", [g; r] -> cmp (=) string_of_int (List.length (glist_sx g)) (int_sx r)
   | "glist", "insert", [g; ix; x; r] ->
       let m = gl_insert (glist_sx g) (nat_of_int (int_sx ix)) (n_sx x) in
@@ -440,6 +447,21 @@ let check_call (f : string) (a : sx list) : string option =
        | "read", [s; r] -> cmp (=) (fun l -> String.concat "," (List.map show_n l)) (l_read (clist_sx s)) (nlist_sx r)
        | "len", [s; r] -> cmp (=) string_of_int (int_of_nat (l_len (clist_sx s))) (int_sx r)
        | "position", [s; ix; r] -> cmp (=) (sopt show_n) (l_position (clist_sx s) (nat_of_int (int_sx ix))) (opt_sx n_sx r)
+       | "is_empty", [s; r] -> cmpb (l_is_empty (clist_sx s)) (bool_sx r)
+       | ("iter" | "read_into"), [s; r] -> cmp (=) (fun l -> String.concat "," (List.map show_n l)) (l_read (clist_sx s)) (nlist_sx r)
+       | "iter_entries", [s; r] ->
+           let ent p = (match seq p with [i; v] -> (ident_sx orddot_sx i, n_sx v) | _ -> bad "list entry") in
+           cmp (=) (fun l -> String.concat ", " (List.map (fun (i, v) -> show_ident show_od i ^ "=" ^ show_n v) l))
+             (l_iter_entries (clist_sx s)) (List.map ent (seq r))
+       | ("first" | "last"), [s; r] ->
+           cmp (=) (sopt show_n) ((if fn = "first" then l_first else l_last) (clist_sx s)) (opt_sx n_sx r)
+       | ("first_entry" | "last_entry"), [s; r] ->
+           let ent p = (match seq p with [i; v] -> (ident_sx orddot_sx i, n_sx v) | _ -> bad "list entry") in
+           cmp (=) (sopt (fun (i, v) -> show_ident show_od i ^ "=" ^ show_n v))
+             ((if fn = "first_entry" then l_first_entry else l_last_entry) (clist_sx s)) (opt_sx ent r)
+       | "position_entry", [s; id; r] ->
+           cmp (=) (sopt string_of_int) (Option.map int_of_nat (l_position_entry (clist_sx s) (ident_sx orddot_sx id))) (opt_sx int_sx r)
+       | "get", [s; id; r] -> cmp (=) (sopt show_n) (l_get (clist_sx s) (ident_sx orddot_sx id)) (opt_sx n_sx r)
        | _ -> bad "unknown call %s" f)
   (* ---- merkle *)
   | "merkle", "write", [_; _; nd; h] -> register_node h (mnode_sx nd); None
